@@ -569,8 +569,11 @@ def plan(m: ModelStorage, o: list[Any], ctx: Ctx | None) -> Plan | None:
                     conflict = m.param_conflict(h, name, spec)
                     break
         if o[3] and conflict is None:
-            skip("incompatible distribution for a name not yet known in the study")
-            return None
+            # nothing in the study to be incompatible with yet: write the name with its ordinary
+            # distribution instead, so that later incompatible writes have a target
+            spec = FAMILIES[name][var]
+            conflict = m.param_conflict(h, name, spec) if known else None
+            classes.append("incompatible-write-turned-compatible")
         if conflict == "template":
             skip("distribution incompatible with one introduced only by a template")
             return None
